@@ -327,7 +327,7 @@ def tokenize(schema, s, data_tags=None):
         tagtxt = s[i:j]
         if not tagtxt.isdigit() or not tagtxt.isascii(): raise ValueError('bad tag %r at %d' % (tagtxt, i))
         tag = int(tagtxt)
-        if prev is not None and data_tags is not None and tag in data_tags and prev[0] == tag - 1 and prev[1].isdigit():
+        if prev is not None and data_tags is not None and tag in data_tags and prev[0] == data_tags[tag] and prev[1].isdigit():
             ln = int(prev[1])
             val = s[j + 1:j + 1 + ln]
             if len(val) != ln or s[j + 1 + ln:j + 2 + ln] != SOH: raise ValueError('data field %d overruns' % tag)
@@ -343,11 +343,16 @@ def tokenize(schema, s, data_tags=None):
     return out
 
 
+_data_tags_cache = {}
+
+
 def data_tags_of(schema):
     """all tags that are the data half of a Length/data pair anywhere in the schema"""
-    out = set()
+    if schema.name in _data_tags_cache:
+        return _data_tags_cache[schema.name]
+    out = _data_tags_cache.setdefault(schema.name, {})     # data tag -> its Length tag
     def walk(tr):
-        for a, b in tr.pairs(): out.add(b)
+        for a, b in tr.pairs(): out[b] = a
         for t in tr.list:
             if t.sub: walk(t.sub)
     walk(schema.header); walk(schema.trailer)
@@ -392,6 +397,31 @@ def parse_section(toks, i, traits, stop_on_unknown=True):
             it['g'] = els
         items.append(it)
     return items, i
+
+
+def check_framing(schema, s):
+    """framing rules on bytes only: 8,9,35 first, BodyLength, CheckSum; returns the token list"""
+    if not s.endswith(SOH): raise Malformed('does not end with SOH')
+    try:
+        toks = tokenize(schema, s, data_tags_of(schema))
+    except ValueError as e:
+        raise Malformed('tokenise: %s' % e)
+    if len(toks) < 4: raise Malformed('fewer than 4 fields')
+    if toks[0] != (8, schema.begin): raise Malformed('first field is %r, not BeginString' % (toks[0],))
+    if toks[1][0] != 9: raise Malformed('second field is %d, not BodyLength' % toks[1][0])
+    if toks[2][0] != 35: raise Malformed('third field is %d, not MsgType' % toks[2][0])
+    if toks[-1][0] != 10: raise Malformed('last field is %d, not CheckSum' % toks[-1][0])
+    blen_txt = toks[1][1]
+    if not blen_txt.isdigit() or str(int(blen_txt)) != blen_txt: raise Malformed('BodyLength text %r' % blen_txt)
+    head_len = len('8=%s\x019=%s\x01' % (schema.begin, blen_txt))
+    trailer_len = len('10=%s\x01' % toks[-1][1])
+    actual = len(s) - head_len - trailer_len
+    if int(blen_txt) != actual: raise Malformed('BodyLength %s but %d bytes between BodyLength and CheckSum' % (blen_txt, actual))
+    ck = toks[-1][1]
+    if len(ck) != 3 or not ck.isdigit(): raise Malformed('CheckSum text %r is not three digits' % ck)
+    want = checksum(s[:len(s) - trailer_len])
+    if int(ck) != want: raise Malformed('CheckSum %s but byte sum mod 256 is %03d' % (ck, want))
+    return toks
 
 
 def check_wellformed(schema, s):
@@ -526,7 +556,7 @@ _big = st.integers(0, 2 ** 64 - 1)
 
 
 @st.composite
-def st_section(draw, schema, traits, depth=0, max_elems=3, dense=False, unpaired_length=True, data_strategy=None, long_strings=False):
+def st_section(draw, schema, traits, depth=0, max_elems=3, dense=False, unpaired_length=True, data_strategy=None, long_strings=False, pair_bias=False):
     """draw the items of a header/body/trailer/group element: all mandatory fields plus a random subset of optional ones
     (subset mask: AND of two random words => each optional field with p=1/4; dense => p=1/2), random insertion order"""
     items = []
@@ -537,13 +567,16 @@ def st_section(draw, schema, traits, depth=0, max_elems=3, dense=False, unpaired
     mask = draw(st.integers(0, 2 ** n - 1))
     if not dense:
         mask &= draw(st.integers(0, 2 ** n - 1))
+    pmask = draw(st.integers(0, 2 ** n - 1)) if pair_bias and pairs else 0
     for idx, tr in enumerate(traits.list):
         if tr.automatic or tr.ft in EXCLUDED_FT:
             continue
         if tr.tag in data_of:
             continue                      # emitted together with its Length field
         must = tr.man or (depth > 0 and first is not None and tr.tag == first.tag)
-        if tr.tag in pairs and traits[pairs[tr.tag]].man:
+        if tr.tag in pairs and (traits[pairs[tr.tag]].man or (pmask >> idx) & 1):
+            must = True
+        if pair_bias and tr.grp and tr.sub is not None and tr.sub.pairs() and (pmask >> idx) & 1:
             must = True
         if not must and not (mask >> idx) & 1:
             continue
@@ -551,7 +584,7 @@ def st_section(draw, schema, traits, depth=0, max_elems=3, dense=False, unpaired
             ne = draw(st.integers(0, max_elems)) if not tr.man else draw(st.integers(1, max_elems))
             if depth >= 3:
                 ne = min(ne, 1)
-            els = [draw(st_section(schema, tr.sub, depth + 1, max_elems, dense, unpaired_length, data_strategy, long_strings)) for _ in range(ne)] if tr.sub else []
+            els = [draw(st_section(schema, tr.sub, depth + 1, max_elems, dense, unpaired_length, data_strategy, long_strings, pair_bias)) for _ in range(ne)] if tr.sub else []
             # the count field is rendered according to its declared type
             if is_int(tr.ft):
                 items.append({'t': tr.tag, 'k': 'i', 'v': len(els), 'g': els})
